@@ -137,6 +137,12 @@ func c17Features() []c17Feature {
 			c17AddParam(op, m("name", "f2", "in", "formData", "type", "integer", "minimum", 1.0))
 		})
 	}
+	add("two formData one required, both form media types consumed", func(d map[string]any) {
+		op := c17Op(d, "post")
+		op["consumes"] = l("application/x-www-form-urlencoded", "multipart/form-data")
+		c17AddParam(op, m("name", "f1", "in", "formData", "type", "string", "required", true))
+		c17AddParam(op, m("name", "f2", "in", "formData", "type", "integer", "minimum", 1.0))
+	})
 	add("formData file upload", func(d map[string]any) {
 		op := c17Op(d, "post")
 		op["consumes"] = l("multipart/form-data")
@@ -333,6 +339,49 @@ func c17Slots(name string) []string {
 	return out
 }
 
+// c17DuplicateParams lists the parameter lists of a Swagger 2.0 document (path items, operations) that carry the same
+// (in, name) twice or more than one body parameter; shared parameters are looked up.
+func c17DuplicateParams(doc map[string]any) []string {
+	var out []string
+	shared, _ := doc["parameters"].(map[string]any)
+	check := func(where string, list any) {
+		seen := map[string]bool{}
+		bodies := 0
+		ps, _ := list.([]any)
+		for _, p := range ps {
+			pm, _ := p.(map[string]any)
+			if r, ok := pm["$ref"].(string); ok {
+				pm, _ = shared[strings.TrimPrefix(r, "#/parameters/")].(map[string]any)
+			}
+			if pm == nil {
+				continue
+			}
+			k := fmt.Sprint(pm["in"], ":", pm["name"])
+			if seen[k] {
+				out = append(out, where+" "+k)
+			}
+			seen[k] = true
+			if pm["in"] == "body" {
+				bodies++
+			}
+		}
+		if bodies > 1 {
+			out = append(out, where+" has more than one body parameter")
+		}
+	}
+	paths, _ := doc["paths"].(map[string]any)
+	for _, pk := range sortedKeys(paths) {
+		pi, _ := paths[pk].(map[string]any)
+		check(pk, pi["parameters"])
+		for _, mk := range sortedKeys(pi) {
+			if op, ok := pi[mk].(map[string]any); ok && mk != "parameters" {
+				check(pk+" "+mk, op["parameters"])
+			}
+		}
+	}
+	return out
+}
+
 func c17RefsOK(n any, bad *[]string) {
 	switch x := n.(type) {
 	case map[string]any:
@@ -360,7 +409,7 @@ func init() {
 		ID: "C17",
 		Rule: "a Swagger 2.0 skeleton (host, basePath, scheme, one path with a path parameter and two operations, one definition) plus every combination of up to two (quick) or three (thorough) features out of ~340: every non-body parameter location x type x constraint field, body parameters (inline, $ref, array of refs), form parameters incl. file upload, shared parameters/responses incl. a shared parameter named like a definition, " +
 			"response schemas and headers with constraints, definitions with every constraint keyword, allOf, nesting, additionalProperties in its four forms, discriminator, x-nullable, self reference, host/basePath/schemes variants, basic/apiKey/four OAuth2 flows, operation and document security. " +
-			"Oracle: ToV3(d).Validate()==nil, NF(ToV3(d)) == NF(d), NF(FromV3(ToV3(d))) == NF(d), every $ref of the way-back document points at a Swagger 2.0 location. Under both map orders. non-trivial = a feature is applied",
+			"Oracle: ToV3(d).Validate()==nil, NF(ToV3(d)) == NF(d), NF(FromV3(ToV3(d))) == NF(d), every $ref of the way-back document points at a Swagger 2.0 location and no parameter list of it carries a parameter twice. Under both map orders. non-trivial = a feature is applied",
 		Assumptions: []string{
 			"normal form mc/ref/apinf.go: paths, methods, operation ids, parameters by in:name with requiredness and schema constraints, body, form fields, responses with description/headers/schema, definitions, servers, security schemes; shared objects dereferenced, schema references by name",
 			"fields without a counterpart (collectionFormat vs style/explode, consumes/produces lists, allowEmptyValue) are outside the normal form; type:file equals string/binary; x-nullable equals nullable",
@@ -478,6 +527,10 @@ func init() {
 			c17RefsOK(rawb, &bad)
 			if len(bad) > 0 {
 				fail("way-back-reference-not-a-v2-location", "references", bad, "swagger2_back", string(jb))
+			}
+			// a legal Swagger 2.0 document: (in, name) is unique in every parameter list, at most one body parameter
+			if dups := c17DuplicateParams(rawb); len(dups) > 0 {
+				fail("way-back-is-not-a-legal-swagger2-document:duplicate-parameter", "duplicates", dups, "swagger2_back", string(jb))
 			}
 			gotb := ref.NormalForm(rawb)
 			if diffs := DiffJSON(generic(gotb), generic(want), 5); len(diffs) > 0 {
